@@ -174,7 +174,7 @@ func c20Run(raw json.RawMessage, c *mc.Ctx) {
 		defer os.RemoveAll(root)
 		ndays := 20
 		if sp.Kind == "sinus" {
-			ndays = 380
+			ndays = 412 // 20.11.2003 - 4.1.2005: a whole leap year including its 366th day, and the year changes on both sides
 		}
 		b := e1Base{Soil: "loam12", GW: 99, InitW: 0.6, InitN: 10, ET: 3, Start: "2003-11-20"}
 		if sp.Kind == "sinus" {
@@ -259,7 +259,7 @@ func c20Run(raw json.RawMessage, c *mc.Ctx) {
 					c.Violate(fmt.Sprintf("run-series-level %s file-shape=%d", sp.Format, sp.Shape), fmt.Sprintf("series offsets %v values %v (%s): level used on day start+%d is %.10g, reference %.10g", sp.Offs, sp.Vals, sp.Format, zeit-start, g.GRW, want), nil)
 				}
 			} else {
-				doy := g.TAG.Num
+				doy := float64(proj.FromZEIT(zeit).YearDay()) // the calendar's day of year, not the model's own counter
 				mean, ampl := float64(sp.GH+sp.GL)/2, float64(sp.GL-sp.GH)/2
 				want := mean - ampl*math.Sin((doy+float64(sp.Phase))*math.Pi/180)
 				if sp.GH < sp.GL {
